@@ -19,7 +19,7 @@ RULE = ("endings = {orderly release, close (FIN and RST) after every byte offset
         "resource or held a session instance")
 ASSUMPTIONS = ["'at quiescence' = after the disconnect hook was observed and the worker/selector slot count settled, awaited with a 10 s watchdog (expiry = inconclusive unless a server thread died)",
                "connections whose handshake was refused are only required to see <= 1 hook call and a closed socket"]
-REQUIRED_REACH = ["racing_first_trackings", "big_request_endings", "tls_daemon_shards", "server_ended_with_lingering_client", "ending_ok", "offset_endings", "resources_closed_once", "session_instances_dropped", "witness_unaffected", "timeout_endings", "security_endings", "callback_endings", "churn_connections_checked", "injected_yields", "application_hooks_that_raised", "resources_tracked_by_oneway_calls", "slow_hook_cases_ok"]
+REQUIRED_REACH = ["oneway_calls_on_session_instances", "racing_first_trackings", "big_request_endings", "tls_daemon_shards", "server_ended_with_lingering_client", "ending_ok", "offset_endings", "resources_closed_once", "session_instances_dropped", "witness_unaffected", "timeout_endings", "security_endings", "callback_endings", "churn_connections_checked", "injected_yields", "application_hooks_that_raised", "resources_tracked_by_oneway_calls", "slow_hook_cases_ok"]
 SHARD_TIMEOUT = {"quick": 240, "thorough": 3000}
 
 
@@ -129,6 +129,11 @@ def make_env(P, servertype, commtimeout, linger=30.0, pool=(2, 40), variant=None
                 self.ctor_res = Res(world.rid, ctx.client)
             ctx.track_resource(self.ctor_res)
 
+        @P.server.oneway
+        def note_ow(self, serial):
+            # a oneway call on the per-connection instance (served by a thread of its own): once it has run, nothing of it remains
+            world.entry(serial)["sess_ow_done"] = world.entry(serial).get("sess_ow_done", 0) + 1
+
         def touch(self):
             e = world.entry(ctx.client._vserial)
             e["session"] = weakref.ref(self)
@@ -162,6 +167,7 @@ def make_env(P, servertype, commtimeout, linger=30.0, pool=(2, 40), variant=None
             world.timeouts.setdefault(getattr(conn, "_vserial", None), time.monotonic())
             raise
     fx.daemon.handleRequest = observed_handle_request
+    fx.world = world
     return fx, world
 
 
@@ -170,6 +176,10 @@ def hook_count(fx, serial):
 
 
 _flip = __import__("itertools").count()
+
+
+def world_of(fx):
+    return fx.world
 
 
 def open_victim(fx, ser, ntrack, nuntrack, use_session, rec, nstreams=0):
@@ -190,6 +200,14 @@ def open_victim(fx, ser, ntrack, nuntrack, use_session, rec, nstreams=0):
     serial = ser.loads(r.data)
     if use_session and not session_first:
         touch()
+    if use_session and serial % 2 == 1:
+        c.invoke("sess", "note_ow", (serial,), {}, ser, flags=wire.F_ONEWAY, read=False)
+        end = time.monotonic() + 8.0
+        while not world_of(fx).entry(serial).get("sess_ow_done"):
+            if time.monotonic() > end:
+                raise RuntimeError("oneway call on the session instance was not served within 8 s")
+            time.sleep(0.002)
+        rec.count("oneway_calls_on_session_instances")
     for _ in range(nstreams):
         # an item stream that is still open when the connection ends is one more thing the daemon has to clean up
         r = c.invoke("svc", "gen", (5,), {}, ser)
